@@ -302,7 +302,7 @@ fn add_numeric_column(r: &mut Rng, nodes: &mut [GNode]) {
     let rare = [f(f64::INFINITY), f(f64::NAN), f(f64::NEG_INFINITY), f(9007199254740992.0), "I9007199254740993".to_string(), f(0.1), f(0.2)];
     let exotic = r.chance(1, 6);
     for n in nodes.iter_mut() {
-        if r.chance(4, 5) {
+        if r.chance(9, 10) {
             let v = if exotic && r.chance(1, 4) { r.pick(&rare).clone() } else { r.pick(&common).clone() };
             n.props.push((3, v));
         }
@@ -311,7 +311,7 @@ fn add_numeric_column(r: &mut Rng, nodes: &mut [GNode]) {
 
 /// the property key of an aggregate or a group key: the numeric column often
 fn pick_key(r: &mut Rng) -> u64 {
-    if r.chance(2, 5) { 3 } else { r.below(3) }
+    if r.chance(11, 20) { 3 } else { r.below(3) }
 }
 
 fn gen_items(r: &mut Rng, nvars: u64) -> (String, String, String, String) {
@@ -493,6 +493,21 @@ pub fn generate(seed: u64, cases: usize, out: &mut Vec<String>) {
                 }
                 out.push(format!("qa agg {} {} {} {} {} {} {} {} {} {}", na, ea, start, hops, preds, items, ord, skip, lim, lang));
             }
+        }
+        // ---- the numeric column on its own: aggregates over Int64 and Float64 values of one group
+        if r.chance(2, 3) {
+            let hops = if r.chance(2, 3) { "-".to_string() } else { format!("*/{}/*", r.pick(&["o", "i", "b"])) };
+            let last = nvars_of(&hops) - 1;
+            let mut items: Vec<String> = vec![];
+            if r.chance(1, 2) {
+                items.push(format!("key:0.{}", r.below(3)));
+            }
+            let fns = ["min", "max", "sum", "avg", "cntd", "cold", "sumd", "avgd", "col", "cnt"];
+            for _ in 0..r.range(2, 3) {
+                items.push(format!("{}:{}.3", r.pick(&fns), last));
+            }
+            let lang = *r.pick(&["gql", "cypher"]);
+            out.push(format!("qa agg {} {} * {} - {} - - - {}", na, ea, hops, items.join(","), lang));
         }
         // ---- Gremlin
         for i in 0..3 {
